@@ -68,7 +68,7 @@ def run_cases(rep, cases, label, keyprefix):
         rep.case(key=json.dumps([k, c["start"], c["base"][:4]], sort_keys=True), nontrivial=(k["L"] > 2 or k["nu1"] + k["nu2"] > 0))
         nbit += r["bitwise"]
         if not r["ok"]:
-            kind = "nan" if "NaN" in r["what"] else "fixedpoint" if "moves it" in r["what"] else "exception" if r["what"].startswith("exception") else "value"
+            kind = "xresidual" if r["what"].startswith("extrapolated residual") else "nan" if "NaN" in r["what"] else "fixedpoint" if "moves it" in r["what"] else "exception" if r["what"].startswith("exception") else "value"
             rep.violation("%s:%s:%s%s" % (keyprefix, kind, "ext" if k["ext"] else "plain", "" if not k["fmg"] else ":fmg"),
                           "%s -- cfg=%s start=%s" % (r["what"], json.dumps(k, sort_keys=True), c["start"]),
                           replay={"case": {kk: c[kk] for kk in ("base", "cfg", "start")}})
